@@ -333,6 +333,43 @@ def run(pid, tier, seed):
             nxt += 1
         validated += gi - pending_from
         pending_from = nxt
+    # the binding demonstrated on this very run: the first small history TLC has accepted, with ONE recorded pull corrupted
+    # (a byte of the frame changed / the frame reported as absent / an absent frame reported as an empty one) must be rejected at
+    # that line; an accepted corruption means the trace specification does not constrain pull results: tool error
+    selftest = []
+    small = next((hi for hi, h in enumerate(hist) if sum(len(f) for f in h[1]) < 4000 and any(len(f) > 0 for f in h[1])), None)
+    if small is not None and not rep.violations:
+        idx = [i for i, o in enumerate(owner) if o == small]
+        base = [json.loads(json.dumps(lines[i])) for i in idx]
+        def first(pred):
+            return next((k for k, ln in enumerate(base) if ln["ev"] == "pull" and pred(ln["ret"])), None)
+        kinds = [("frame byte changed", first(lambda r: r.get("k") == "frame" and len(r.get("bytes", [])) > 0), lambda r: dict(r, bytes=[r["bytes"][0] ^ 1] + r["bytes"][1:])),
+                 ("frame reported as absent", first(lambda r: r.get("k") == "frame"), lambda r: {"k": "none"}),
+                 ("absent frame reported as an empty frame", first(lambda r: r.get("k") == "none"), lambda r: {"k": "frame", "bytes": []})]
+        for what, k, f in kinds:
+            if k is None:
+                selftest.append({"kind": what, "applied": False})
+                continue
+            mutated = [json.loads(json.dumps(x)) for x in base]
+            mutated[k]["ret"] = f(mutated[k]["ret"])
+            tp = os.path.join(wd, "trace_selftest.ndjson")
+            with open(tp, "w") as fh:
+                for ln in mutated:
+                    fh.write(json.dumps(ln) + "\n")
+            res = run_tlc("TcpFramingTrace.tla", "TcpFramingTrace.cfg", workers=1, timeout=600, env_extra={"TRACE": tp},
+                          java_opts="-Xss1g -Xmx4g -Dtlc2.tool.queue.IStateQueue=StateDeque")
+            os.remove(tp)
+            o = res["out"]
+            m = re.search(r'"REJECTED (\d+)"', o)
+            at = int(m.group(1)) if m else None
+            if at is None and "is violated" in o:
+                m2 = re.findall(r"^State (\d+):", o, flags=re.M)
+                at = (int(m2[-1]) - 1) if m2 else None
+            ok = at == k + 1
+            selftest.append({"kind": what, "applied": True, "line": k + 1, "rejected_at_line": at, "ok": ok})
+            if not ok:
+                raise ToolError("binding self-test: TcpFramingTrace did not reject the corruption '%s' at line %d (answer: %s)" % (what, k + 1, at))
+    rep.add_cov(binding_selftest=selftest)
     sample = {"frames": [len(f) for f in hist[0][1]], "steps": [(s["a"], len(s.get("bytes", []))) for s in hist[0][0]["steps"][:12]]}
     # unbounded-history half of the argument: `pushed = framed \o buf` is an inductive invariant of Push/Pull (Apalache;
     # any buffer content up to the bounded lengths, not only states reachable within a bounded number of steps)
